@@ -16,6 +16,7 @@ META = {
         "(activation before the first event or on explicit activate), rtc on/off, events before/after "
         "explicit activation. "
         "8% of the models are class Row(MachineMixin, Record) whose Record.__init__ receives the stored state. "
+        "Probes: stored values equal-but-not-identical to a state's value over a write-counting record; instances of one class differing in coroutine listeners, in any creation order; a rejected construction stores nothing and runs nothing; activation must be awaitable inside a loop. "
         "distinct_nontrivial = distinct (stored state | start | empty, restart count, "
         "re-activations, engine, rtc, driver) combinations."
     ),
